@@ -4,11 +4,15 @@ import (
 	"bytes"
 	"context"
 	"crypto/sha256"
+	"errors"
 	"fmt"
+	"github.com/bufbuild/buf/private/bufpkg/bufmodule/bufmoduletesting"
+	"io/fs"
 	"math/rand"
 	"runtime"
 	"sort"
 	"strings"
+	"time"
 
 	"github.com/bufbuild/buf/private/buf/bufformat"
 	"github.com/bufbuild/buf/private/bufpkg/bufconfig"
@@ -350,6 +354,27 @@ func operations() []operation {
 			}
 			return bufx.MarshalImage(out)
 		}},
+		{"remote-commits", func(ctx context.Context, env Env) ([]byte, error) {
+			// one remote dependency pinned at four commits (a workspace whose lock files drifted apart), added in an
+			// order that depends on the environment: the newest one is used, whatever the order
+			ms, err := buildModuleSetWithCommits(ctx, env)
+			if err != nil {
+				return nil, err
+			}
+			var buf bytes.Buffer
+			for _, m := range ms.Modules() {
+				fmt.Fprintf(&buf, "%s commit=%s target=%v\n", m.OpaqueID(), m.CommitID(), m.IsTarget())
+			}
+			img, err := bufx.BuildImageForModuleSet(ctx, ms)
+			if err != nil {
+				return nil, err
+			}
+			data, err := bufx.MarshalImage(img)
+			if err != nil {
+				return nil, err
+			}
+			return append(buf.Bytes(), data...), nil
+		}},
 		{"ls-files", func(ctx context.Context, env Env) ([]byte, error) {
 			ms, err := buildModuleSet(ctx, env, 1)
 			if err != nil {
@@ -456,4 +481,85 @@ func firstDiff(a, b []byte) int {
 		}
 	}
 	return n
+}
+
+// commitsProvider serves the commits of the remote dependency of the remote-commits operation.
+type commitsProvider struct {
+	datas   map[uuid.UUID]bufmodule.ModuleData
+	created map[uuid.UUID]time.Time
+}
+
+func (p *commitsProvider) GetModuleDatasForModuleKeys(_ context.Context, keys []bufmodule.ModuleKey) ([]bufmodule.ModuleData, error) {
+	var out []bufmodule.ModuleData
+	for _, k := range keys {
+		d, ok := p.datas[k.CommitID()]
+		if !ok {
+			return nil, fs.ErrNotExist
+		}
+		out = append(out, d)
+	}
+	return out, nil
+}
+
+func (p *commitsProvider) GetCommitsForModuleKeys(_ context.Context, keys []bufmodule.ModuleKey) ([]bufmodule.Commit, error) {
+	var out []bufmodule.Commit
+	for _, k := range keys {
+		t, ok := p.created[k.CommitID()]
+		if !ok {
+			return nil, fs.ErrNotExist
+		}
+		out = append(out, bufmodule.NewCommit(k, func() (time.Time, error) { return t, nil }))
+	}
+	return out, nil
+}
+
+func (p *commitsProvider) GetCommitsForCommitKeys(context.Context, []bufmodule.CommitKey) ([]bufmodule.Commit, error) {
+	return nil, errors.New("not used")
+}
+
+func buildModuleSetWithCommits(ctx context.Context, env Env) (bufmodule.ModuleSet, error) {
+	prov := &commitsProvider{datas: map[uuid.UUID]bufmodule.ModuleData{}, created: map[uuid.UUID]time.Time{}}
+	// creation times are not in the order of the commit numbers
+	times := map[int]int64{1: 300, 2: 100, 3: 400, 4: 200}
+	var keys []bufmodule.ModuleKey
+	for commit := 1; commit <= 4; commit++ {
+		id := uuid.NewSHA1(uuid.Nil, []byte(fmt.Sprintf("gamma-%d", commit)))
+		omni, err := bufmoduletesting.NewOmniProvider(bufmoduletesting.ModuleData{Name: "buf.test/verif/gamma", CommitID: id, PathToData: map[string][]byte{
+			"gamma/v1/g.proto": []byte(fmt.Sprintf("syntax = \"proto3\";\npackage gamma.v1;\n// commit %d\nmessage G { string id = 1; int32 rev%d = %d; }\n", commit, commit, commit+1)),
+		}})
+		if err != nil {
+			return nil, err
+		}
+		ref, err := bufparse.NewRef("buf.test", "verif", "gamma", "")
+		if err != nil {
+			return nil, err
+		}
+		ks, err := omni.GetModuleKeysForModuleRefs(ctx, []bufparse.Ref{ref}, bufmodule.DigestTypeB5)
+		if err != nil {
+			return nil, err
+		}
+		md, err := omni.GetModuleDatasForModuleKeys(ctx, ks)
+		if err != nil {
+			return nil, err
+		}
+		prov.datas[id] = md[0]
+		prov.created[id] = time.Unix(1700000000+times[commit], 0)
+		keys = append(keys, ks[0])
+	}
+	builder := bufmodule.NewModuleSetBuilder(ctx, bufx.Logger, prov, prov)
+	local, err := bufx.Bucket(map[string]string{"use/v1/u.proto": "syntax = \"proto3\";\npackage use.v1;\nimport \"gamma/v1/g.proto\";\nmessage U { gamma.v1.G g = 1; }\n"})
+	if err != nil {
+		return nil, err
+	}
+	fullName, err := bufparse.NewFullName("buf.test", "verif", "use")
+	if err != nil {
+		return nil, err
+	}
+	builder.AddLocalModule(perturbBucket(local, env), "use", true, bufmodule.LocalModuleWithFullNameAndCommitID(fullName, uuid.NewSHA1(uuid.Nil, []byte("use"))))
+	// the order in which the pins are added: rotated and shuffled by the environment
+	order := shuffled(keys, env.ArgSeed+int64(env.Rep)+env.WalkSeed)
+	for _, k := range order {
+		builder.AddRemoteModule(k, false)
+	}
+	return builder.Build()
 }
